@@ -17,9 +17,12 @@ pub enum Sub {
     /// controlled schedule: consume k, idle, drop, run workers to quiescence
     Controlled { t: usize, k: usize, upstream: usize, choices: Vec<u16> },
     /// real threads, Pipe
-    RealPipe { t: usize, k: usize, upstream: usize, chaos: u64 },
+    /// `slow_us`: the upstream takes that long per item; `idle_us`: how long the consumer idles
+    /// between its last item and the drop (None = 3 ms), so that the drop can land while a
+    /// background thread is in the middle of fetching
+    RealPipe { t: usize, k: usize, upstream: usize, chaos: u64, #[serde(default)] slow_us: u64, #[serde(default)] idle_us: Option<u64> },
     /// real threads, Buffered
-    RealBuffered { buffer: usize, k: usize, upstream: usize },
+    RealBuffered { buffer: usize, k: usize, upstream: usize, #[serde(default)] slow_us: u64, #[serde(default)] idle_us: Option<u64> },
     /// child process: worker function panics at item j
     /// `history`: what the process did before the failing pipe was built: 0 nothing, 1 an earlier
     /// pipe consumed to its end, 2 an earlier pipe and then a panic hook installed by the
@@ -53,6 +56,7 @@ struct Policed {
     after_drop: usize,
     violation: Arc<Mutex<Option<String>>>,
     gone: Arc<AtomicBool>,
+    slow_us: u64,
 }
 
 impl Iterator for Policed {
@@ -79,6 +83,10 @@ impl Iterator for Policed {
             }
             return None;
         }
+        if self.slow_us > 0 {
+            // a slow source (a generated speed, not a verdict): the fetch is in progress meanwhile
+            std::thread::sleep(Duration::from_micros(self.slow_us));
+        }
         self.next += 1;
         Some(self.next - 1)
     }
@@ -90,7 +98,7 @@ impl Drop for Policed {
     }
 }
 
-fn real_run(pipe_t: Option<usize>, buffer: usize, k: usize, upstream: usize, chaos: u64) -> Result<Vec<&'static str>, String> {
+fn real_run(pipe_t: Option<usize>, buffer: usize, k: usize, upstream: usize, chaos: u64, slow_us: u64, idle_us: Option<u64>) -> Result<Vec<&'static str>, String> {
     let bound = match pipe_t {
         Some(t) => bound_pipe(t),
         None => bound_buffered(buffer),
@@ -110,6 +118,7 @@ fn real_run(pipe_t: Option<usize>, buffer: usize, k: usize, upstream: usize, cha
         after_drop: 0,
         violation: violation.clone(),
         gone: gone.clone(),
+        slow_us,
     };
     let mut classes = vec![];
     text_utils::verif::install(Some(Chaos::new(chaos) as Arc<dyn Controller>));
@@ -141,8 +150,11 @@ fn real_run(pipe_t: Option<usize>, buffer: usize, k: usize, upstream: usize, cha
     }
     // consumer idle: give the background threads room to overrun (finding nothing here is not a verdict)
     let t0 = Instant::now();
-    while t0.elapsed() < Duration::from_millis(3) {
+    while t0.elapsed() < Duration::from_micros(idle_us.unwrap_or(3000)) {
         std::thread::yield_now();
+    }
+    if slow_us > 0 && idle_us.is_some_and(|i| i < slow_us) {
+        classes.push("drop_during_fetch");
     }
     if pulled.load(Ordering::SeqCst) > got {
         classes.push("lookahead_observed");
@@ -327,10 +339,10 @@ fn panic_child(t: usize, n: usize, j: usize, delay_ms: u64, history: u8) -> Resu
 impl Prop for C09 {
     type Case = Case;
     const ID: &'static str = "C09";
-    const RULE: &'static str = "(a) controlled schedules (C05 controller): T in 1..=4, consumer takes k in 0..=20 items of an upstream of k, k+1, 50 or 10^6 items, then only workers are scheduled until none can move (lookahead = pulled - consumed <= 4T+4), then the pipe is dropped and the workers are run to quiescence (all reach their exit point, still <= 4T+4 pulled); (b) the same with real threads for Pipe (T in 0..=4, chaos controller) and Buffered (buffer 0..=4, bound 2*buffer+4) with an upstream iterator that polices pulled - asked and pulls after the drop itself and whose Drop signals thread exit; (c) child processes in which the worker function panics at item j, optionally after a history in the same process (an earlier pipe run to its end, a panic hook installed by the application, the crate's own train_bpe, which installs a print-only hook): the child must terminate with a non-zero status. Non-trivial (a): at the drop >= 1 item is in the channel and >= 1 worker is between ticket and send. Distinct = distinct serialised case.";
+    const RULE: &'static str = "(a) controlled schedules (C05 controller): T in 1..=4, consumer takes k in 0..=20 items of an upstream of k, k+1, 50 or 10^6 items, then only workers are scheduled until none can move (lookahead = pulled - consumed <= 4T+4), then the pipe is dropped and the workers are run to quiescence (all reach their exit point, still <= 4T+4 pulled); (b) the same with real threads for Pipe (T in 0..=4, chaos controller) and Buffered (buffer 0..=4, bound 2*buffer+4) with an upstream iterator that polices pulled - asked and pulls after the drop itself and whose Drop signals thread exit, optionally slow (0.1 / 1 ms per item) with a generated consumer idle time before the drop (0 / 50 us / 3 ms), so that the drop also lands while a background thread is fetching; (c) child processes in which the worker function panics at item j, optionally after a history in the same process (an earlier pipe run to its end, a panic hook installed by the application, the crate's own train_bpe, which installs a print-only hook): the child must terminate with a non-zero status. Non-trivial (a): at the drop >= 1 item is in the channel and >= 1 worker is between ticket and send. Distinct = distinct serialised case.";
     const CLAIMS_TERMINATION: bool = true;
     const HANG_SECS: u64 = 45;
-    const ESSENTIAL: &'static [&'static str] = &["controlled", "real_pipe", "real_buffered", "panic_child", "panic_slow_near_end", "panic_after_foreign_hook", "unbounded_upstream", "drop_at_0", "drop_with_full_channel"];
+    const ESSENTIAL: &'static [&'static str] = &["controlled", "real_pipe", "real_buffered", "panic_child", "panic_slow_near_end", "panic_after_foreign_hook", "unbounded_upstream", "drop_at_0", "drop_with_full_channel", "drop_during_fetch"];
 
     fn budget(tier: Tier) -> Budget {
         match tier {
@@ -343,8 +355,14 @@ impl Prop for C09 {
         let up = |k: usize| prop_oneof![Just(k), Just(k + 1), Just(50usize.max(k)), Just(1_000_000usize), Just(1_000_000usize)];
         let controlled = (prop_oneof![10 => 1usize..=4, 1 => 5usize..=8], prop_oneof![10 => 0usize..=20, 1 => 21usize..=60], proptest::collection::vec(any::<u16>(), 0..=300))
             .prop_flat_map(move |(t, k, choices)| up(k).prop_map(move |upstream| Sub::Controlled { t, k, upstream, choices: choices.clone() }));
-        let real_pipe = (prop_oneof![10 => 0usize..=4, 1 => 5usize..=16], prop_oneof![10 => 0usize..=20, 1 => 21usize..=200], any::<u64>()).prop_flat_map(move |(t, k, chaos)| up(k).prop_map(move |upstream| Sub::RealPipe { t, k, upstream, chaos }));
-        let real_buf = (prop_oneof![10 => 0usize..=4, 1 => 5usize..=64], prop_oneof![10 => 0usize..=20, 1 => 21usize..=200]).prop_flat_map(move |(buffer, k)| up(k).prop_map(move |upstream| Sub::RealBuffered { buffer, k, upstream }));
+        // (time per upstream item, consumer idle time before the drop)
+        let speed = || prop_oneof![
+            3 => Just((0u64, None)),
+            2 => (prop_oneof![Just(100u64), Just(1000u64)], prop_oneof![Just(0u64), Just(50u64), Just(3000u64)]).prop_map(|(s, i)| (s, Some(i))),
+            1 => Just((0u64, Some(0u64))),
+        ];
+        let real_pipe = (prop_oneof![10 => 0usize..=4, 1 => 5usize..=16], prop_oneof![10 => 0usize..=20, 1 => 21usize..=200], any::<u64>(), speed()).prop_flat_map(move |(t, k, chaos, (slow_us, idle_us))| up(k).prop_map(move |upstream| Sub::RealPipe { t, k, upstream, chaos, slow_us, idle_us }));
+        let real_buf = (prop_oneof![10 => 0usize..=4, 1 => 5usize..=64], prop_oneof![10 => 0usize..=20, 1 => 21usize..=200], speed()).prop_flat_map(move |(buffer, k, (slow_us, idle_us))| up(k).prop_map(move |upstream| Sub::RealBuffered { buffer, k, upstream, slow_us, idle_us }));
         let panic = (prop_oneof![10 => 1usize..=4, 1 => 5usize..=8], prop_oneof![10 => 1usize..=12, 1 => 13usize..=60], prop_oneof![Just(0u64), Just(5u64), Just(40u64)], prop_oneof![3 => Just(0u8), 4 => 1u8..=4]).prop_flat_map(|(t, n, delay_ms, history)| (0..n).prop_map(move |j| Sub::Panic { t, n, j, delay_ms, history }));
         prop_oneof![20 => controlled, 5 => real_pipe, 5 => real_buf, 2 => panic]
             .prop_map(|sub| Case { sub })
@@ -376,11 +394,11 @@ impl Prop for C09 {
                     Err(e) => out.fail(format!("T={t} k={k} upstream={upstream}: {e}")),
                 }
             }
-            Sub::RealPipe { t, k, upstream, chaos } => {
+            Sub::RealPipe { t, k, upstream, chaos, slow_us, idle_us } => {
                 out.label("real_pipe");
                 out.label_if(*upstream >= 1_000_000, "unbounded_upstream");
                 out.label_if(*k == 0, "drop_at_0");
-                match real_run(Some(*t), 0, *k, *upstream, *chaos) {
+                match real_run(Some(*t), 0, *k, *upstream, *chaos, *slow_us, *idle_us) {
                     Ok(cl) => {
                         out.nontrivial = cl.contains(&"lookahead_observed") && *upstream > *k;
                         for c in cl {
@@ -390,11 +408,11 @@ impl Prop for C09 {
                     Err(e) => out.fail(format!("Pipe with {t} threads, drop after {k} of {upstream}: {e}")),
                 }
             }
-            Sub::RealBuffered { buffer, k, upstream } => {
+            Sub::RealBuffered { buffer, k, upstream, slow_us, idle_us } => {
                 out.label("real_buffered");
                 out.label_if(*upstream >= 1_000_000, "unbounded_upstream");
                 out.label_if(*k == 0, "drop_at_0");
-                match real_run(None, *buffer, *k, *upstream, 0) {
+                match real_run(None, *buffer, *k, *upstream, 0, *slow_us, *idle_us) {
                     Ok(cl) => {
                         out.nontrivial = cl.contains(&"lookahead_observed") && *upstream > *k;
                         for c in cl {
